@@ -94,3 +94,45 @@ Theorem module_context_control :
     end.
 Proof. exact module_context_control_lemma. Qed.
 Print Assumptions module_context_control.
+
+(** ** non-vacuity: a history in which one request is answered and its sibling expires; a
+    late answer to the expired one and a duplicate answer to the answered one are rejected;
+    the one-shot context is removed; a repeated context (frequency 3, total 2) starts its
+    batches at heights 1 and 4 and is then removed; a stranger's pause is rejected *)
+Definition ex_cfg := mkCfg 50000000000000000 300000000000000000 6 2 100 4 false 2.
+Definition ex_l0 : ledger := [((0, 0), 1000000); ((5, 0), 1000000)].
+Definition ex_hist : list step :=
+  [ Tx 11 (MDefine 0 0 true);
+    Tx 12 (MBind 0 2 0 1000 (0, 100, [(0, 2000, 500000000000000000)], []) 1 true 0);
+    Tx 13 (MBind 0 3 0 1000 (0, 60, [], []) 1 true 0);
+    Tx 14 (MCall 0 [2; 3] 5 true 0 100000 2 false 0 0);
+    EndBlock 5;
+    Tx 15 (MRespond ((14, 0), 1, 1, 0) 2 1);
+    Tx 16 (MRespond ((14, 0), 1, 1, 0) 2 1);
+    Tx 17 (MRespond ((14, 0), 1, 1, 1) 2 1);
+    EndBlock 5; EndBlock 5;
+    Tx 18 (MRespond ((14, 0), 1, 1, 1) 3 1) ].
+
+Example c08_outcomes_nonvacuous :
+  let s := run ex_cfg (init 1 1000 ex_l0) ex_hist in
+  g_out s = [((14, 0, 1, 1, 0), 1); ((14, 0, 1, 1, 1), 2)]
+  /\ get (14, 0) (ctxs s) = None
+  /\ apply ex_cfg s (Tx 19 (MRespond ((14, 0), 1, 1, 1) 3 1)) = s.
+Proof. vm_compute. repeat split; reflexivity. Qed.
+
+Definition ex_hist2 : list step :=
+  [ Tx 11 (MDefine 0 0 true);
+    Tx 12 (MBind 0 2 0 1000 (0, 100, [], []) 1 true 0);
+    Tx 14 (MCall 0 [2] 5 true 0 100000 2 true 3 2);
+    EndBlock 5; EndBlock 5;
+    Tx 15 (MPause (14, 0) 6);
+    EndBlock 5; EndBlock 5; EndBlock 5; EndBlock 5; EndBlock 5 ].
+
+Example c08_schedule_nonvacuous :
+  let s := run ex_cfg (init 1 1000 ex_l0) ex_hist2 in
+  g_batches s = [((14, 0), 1, 1); ((14, 0), 2, 4)]
+  /\ g_out s = [((14, 0, 1, 1, 0), 2); ((14, 0, 2, 4, 0), 2)]
+  /\ ctxs s = []
+  /\ exec_step ex_cfg (run ex_cfg (init 1 1000 ex_l0) (firstn 5 ex_hist2)) (Tx 15 (MPause (14, 0) 6)) = Rejj
+  /\ (exists s', exec_step ex_cfg (run ex_cfg (init 1 1000 ex_l0) (firstn 5 ex_hist2)) (Tx 15 (MPause (14, 0) 5)) = Okk s').
+Proof. vm_compute. repeat split; try reflexivity. eexists. reflexivity. Qed.
